@@ -84,6 +84,7 @@ fn probe(sc: &Scenario, reps: usize) -> Option<(isize, [isize; 4])> {
                         cfg.unsafe_mutations = *u;
                         g.mutators = crate::exec::make_mutators(&cfg.mutators, *u, &None);
                     }
+                    HOp::SetProtocol(p) => g.state.version = crate::exec::version(*p),
                     HOp::SetMutators(m) => {
                         cfg.mutators = m.clone();
                         g.mutators = crate::exec::make_mutators(&cfg.mutators, cfg.unsafe_mutations, &None);
